@@ -300,8 +300,9 @@ func (rw *rewriter) file(f *ast.File) {
 			c.Fun = rt("OnceDo")
 			c.Args = []ast.Expr{rw.site(c, "once"), x, c.Args[0]}
 		}
-		if p, name := rw.funcOf(c); p == "sync" && strings.HasPrefix(name, "Once") {
-			rw.refuse(c, "sync."+name+" hides a sync.Once the simulator cannot see")
+		if p, name := rw.funcOf(c); p == "sync" && (name == "OnceFunc" || name == "OnceValue" || name == "OnceValues") {
+			c.Fun = rt(name) // a once the simulator sees
+			rw.used = true
 		}
 		if p, name := rw.funcOf(c); p == "context" && (name == "WithTimeoutCause" || name == "WithDeadlineCause") && len(c.Args) == 3 {
 			c.Fun = rt("Context" + name)
